@@ -614,6 +614,10 @@ def run(ctx, facts):
             # agreement across the two structs is not part of the property (each is checked by the rules above on its own);
             # a one-sided, behaviour-preserving edit would differ here, so this is information only
             ctx.info("3a and 3aSha differ outside the seeding block: ProbMinHash3a has `%s` where ProbMinHash3aSha has `%s`" % (d[0][:90], d[1][:90]))
+    # ProbMinHash3 and ProbMinHash3a can only produce the same signature if their samplers have the same rate
+    from . import C01 as _C01
+    ctx.rule("LAMBDA", _C01.RULES["LAMBDA"])
+    _C01.lambda_rule(ctx, facts)
     # 6 RESETBEFORE
     from . import C13
     C13.require_verified_reset(ctx, facts, [C13.FY], "RESETBEFORE")
